@@ -1140,6 +1140,12 @@ class Evaluator:
     def e_CallExpr(self, n, st):
         name, fid, fkind, fnode = self.callee_name(n)
         args = n['inner'][1:]
+        if name is None and fnode.get('kind') == 'MemberExpr' and fnode.get('name') == 'zero' and 'duration<' in (qt(n) or '') + (n.get('type', {}).get('desugaredQualType') or ''):
+            yield st, ('int', 0)          # d.zero(): the static duration::zero() called through an object
+            return
+        if name == 'zero' and not args and 'duration<' in (qt(n) or '') + (n.get('type', {}).get('desugaredQualType') or ''):
+            yield st, ('int', 0)          # std::chrono::duration<...>::zero()
+            return
         if name is None:
             yield st, self.unknown(st, 'call:indirect', n)
             return
@@ -2130,6 +2136,12 @@ class Evaluator:
             yield st
             return
         t = v['type'].get('desugaredQualType') or v['type'].get('qualType', '')
+        if t.replace('const ', '').startswith('std::shared_lock<'):
+            # reader / writer locking: which operations may share the lock is a protocol of its own (C06 / C07 are written for one
+            # exclusive critical section per call)
+            self.unknown(st, 'std::shared_lock (reader lock on a shared mutex) is not modelled', v)
+            yield st
+            return
         if typeclass(t) == 'lockguard':
             yield from self.declare_guard(v, st)
             return
@@ -2815,9 +2827,9 @@ class Evaluator:
         k0 = args[0][2] if (isinstance(args[0], tuple) and args[0] and args[0][0] == 'ld') else args[0]
         if k0 != ('elem', rloc, lid):
             return None
-        if not (args[1] == ('global', 'nullopt') or (isinstance(args[1], tuple) and args[1] and args[1][0] == 'ctor' and not args[1][2]
-                                                      and 'optional' in str(args[1][1]))):
-            return None
+        if not (args[1] in (('global', 'nullopt'), ('bool', False)) or (isinstance(args[1], tuple) and args[1] and args[1][0] == 'ctor' and not args[1][2]
+                                                                       and 'optional' in str(args[1][1]))):
+            return None         # (key, nullopt) for the maps / caches, (key, false) for ut_set
         # nothing was put into the vector before (reserve only)
         for e in st.trace:
             if e[0] == 'call' and e[1] == V and e[2] != 'reserve':
